@@ -640,6 +640,19 @@ impl<'a> Mutator<'a> {
                             KeyTy::I32 => Some(rng.pick(&["x", "99999999999", "", "1e3", "\"1\"", "1\t"]).to_string()),
                             KeyTy::Char => Some(rng.pick(&["ab", "", "abc", "\"\"", "\\n"]).to_string()),
                         };
+                        // or a blank-padded spelling of a key the object already has: unparsable
+                        // for every key type but String, and equal to its neighbour once trimmed
+                        let bad = match (bad, k) {
+                            (Some(_), KeyTy::U8 | KeyTy::I32 | KeyTy::Char) if !members.is_empty() && rng.chance(1, 4) => {
+                                let (k0, _) = rng.pick(members).clone();
+                                Some(match rng.below(3) {
+                                    0 => format!(" {k0}"),
+                                    1 => format!("{k0} "),
+                                    _ => format!("\t{k0}"),
+                                })
+                            }
+                            (b, _) => b,
+                        };
                         if let Some(b) = bad {
                             if members.iter().all(|(k2, _)| *k2 != b) {
                                 let pos = rng.below(members.len() + 1);
